@@ -1080,6 +1080,14 @@ func genArgs(r *Rng, tree []c06Ent, recursive bool) []string {
 			args = append(args, Pick(r, badPatterns))
 		case k == 37 && i > 0:
 			args = append(args, "-")
+		case (k == 38 || k == 39) && len(files) > 0:
+			// the same file spelled in ways a lexical clean-up would change: some open (./f, d//f, dir/../f), some must not (nodir/../f, f/.)
+			f := Pick(r, files)
+			forms := []string{"./" + f, "nodir/../" + f, f + "/.", strings.Replace(f, "/", "//", 1)}
+			if len(dirs) > 0 {
+				forms = append(forms, Pick(r, dirs)+"/../"+f)
+			}
+			args = append(args, Pick(r, forms))
 		default:
 			if len(files) > 0 {
 				args = append(args, Pick(r, files))
@@ -1157,6 +1165,7 @@ func fixedCases() []c06In {
 	argsets := [][]string{
 		{"a.log"}, {"a.log", "a.log"}, {"*"}, {"d"}, {"d/"}, {"d", "d/sub"}, {"nope", "a.log"}, {"d/*"}, {"*.gz", "c.gz"},
 		{"empty"}, {"a[", "a.log"}, {"a.log", "-"}, {"t.gz", "a.log", "c.gz", "d/x"}, {"nomatch*"}, {"d/sub/e"},
+		{"./a.log", "d//x"}, {"nodir/../a.log"}, {"a.log/."}, {"d/../a.log", "d/sub/../x"}, {"d/sub/../../a.log", "./*.gz"},
 	}
 	var out []c06In
 	for _, as := range argsets {
@@ -1269,9 +1278,9 @@ func main() {
 		Name:   "C06",
 		Header: "From Coq Require Import List NArith ZArith String.\nFrom RareV Require Import Corr.C06Case.\nImport ListNotations.\nLocal Open Scope string_scope.\nLocal Open Scope N_scope.\n",
 		Rule: "the rare binary built from the tree under test, run (filter -e '{src}:{line}:{0}', filter -m '^.*Q.*$', histo -e {src} -e {0}) in real temporary trees: " +
-			"a fixed scope (15 argument lists x -z x -R on one tree with plain / gzip / truncated gzip / empty files and nested directories, stdin forms, 26 argument lists x -R over a tree of pattern-named files and directories next to the siblings their names match as patterns (x[1].log+x1.log, s*.txt+sab.txt, w?.txt+wa.txt, r[a-c].log+rb.log, a\\*b+a*b, *+zz, g[1]/+g1/, h*/+hx/, malformed k[), walked directly, from a parent, and mixed with the same names as command-line patterns; 84 named-pipe cases (7 contents: 6 bytes, 2 bytes, empty, > 4096 bytes, gzip, gzip cut inside its header, gzip cut inside its body; as argument, next to a file, as glob match, below a -R directory; x -z) with a writer goroutine per pipe; 8 large single-input cases of fixed-width numbered records (1300 x 128 bytes as plain file, plain under -z, gzip under -z, standard input, with --batch 100000 so that every line is still held when the buffer is refilled; 2200 x 128 bytes with the default batch and 3 workers; 1300 x 128 bytes through a named pipe: plain, plain under -z, gzip under -z): a newline is exactly the last byte of a full 128 KiB read-ahead buffer and every record must be printed exactly once under its own line number; standard input failing while read: directory handle at CLI level, and at library level batchers.OpenReaderToChan + helpers.DetermineErrorState over a reader that fails after 0-3 lines) then seeded random trees (depth <= 3, names incl. glob metacharacters, a named pipe in 1 directory of 9 (made a regular file when the arguments mention it more than once: a pipe cannot be read twice), pattern-named entries paired with a sibling the name matches (1 directory in 3), malformed-pattern names, " +
+			"a fixed scope (20 argument lists x -z x -R on one tree with plain / gzip / truncated gzip / empty files and nested directories, stdin forms, 26 argument lists x -R over a tree of pattern-named files and directories next to the siblings their names match as patterns (x[1].log+x1.log, s*.txt+sab.txt, w?.txt+wa.txt, r[a-c].log+rb.log, a\\*b+a*b, *+zz, g[1]/+g1/, h*/+hx/, malformed k[), walked directly, from a parent, and mixed with the same names as command-line patterns; 84 named-pipe cases (7 contents: 6 bytes, 2 bytes, empty, > 4096 bytes, gzip, gzip cut inside its header, gzip cut inside its body; as argument, next to a file, as glob match, below a -R directory; x -z) with a writer goroutine per pipe; 8 large single-input cases of fixed-width numbered records (1300 x 128 bytes as plain file, plain under -z, gzip under -z, standard input, with --batch 100000 so that every line is still held when the buffer is refilled; 2200 x 128 bytes with the default batch and 3 workers; 1300 x 128 bytes through a named pipe: plain, plain under -z, gzip under -z): a newline is exactly the last byte of a full 128 KiB read-ahead buffer and every record must be printed exactly once under its own line number; standard input failing while read: directory handle at CLI level, and at library level batchers.OpenReaderToChan + helpers.DetermineErrorState over a reader that fails after 0-3 lines) then seeded random trees (depth <= 3, names incl. glob metacharacters, a named pipe in 1 directory of 9 (made a regular file when the arguments mention it more than once: a pipe cannot be read twice), pattern-named entries paired with a sibling the name matches (1 directory in 3), malformed-pattern names, " +
 			"files: plain, empty, gzip, truncated gzip (header/body/trailer), damaged trailer, damaged deflate body, multi-member, trailing garbage, plain > 4096 bytes) x 1-4 arguments (file, directory with or without trailing slash, glob, missing path, " +
-			"duplicate, malformed pattern, '-' first or later, none) x -z x -R x --readers 1-4 x --workers 1-3 x --batch {1,2,3,1000}. Oracles: os.Stat, filepath.Glob, os.ReadDir order, compress/gzip called by the harness on the same tree. " +
+			"duplicate, malformed pattern, the same file spelled with ./ // dir/.. missing/.. or a trailing /. , '-' first or later, none) x -z x -R x --readers 1-4 x --workers 1-3 x --batch {1,2,3,1000}. Oracles: os.Stat, filepath.Glob, os.ReadDir order, compress/gzip called by the harness on the same tree. " +
 			"distinct = distinct (tree, arguments, flags, stdin); non-trivial = at least one of: a named pipe that is read, a directory walked by -R, a walked entry whose name read as a pattern would match something else, a glob with >= 2 matches, a pattern without match taken literally, a missing path next to other arguments, " +
 			"a directory opened as a file, a duplicate mention, a malformed pattern, -z over a file that is not plain text, standard input (ending normally, or failing while being read: directory handle / failing reader), a failed input next to inputs whose lines were printed.",
 		Gen: gen,
